@@ -62,3 +62,4 @@ import LexVerif.Props.C01Trunc
 import LexVerif.Props.C01Compact
 import LexVerif.Props.C01Final
 import LexVerif.Props.C12Sep
+import LexVerif.Props.C14Pow2
